@@ -78,6 +78,7 @@ InvPages == { <<Inv(fn, <<Pos(v)>>)>> : fn \in {"echo", "err", "pre", "tpl", "py
 SiblingPages == { <<Call(a, <<Pos(<<Txt(<<"1">>)>>)>>), Txt(<<"SP">>), Call(b, <<Pos(<<Txt(<<"2">>)>>)>>)>> : a \in {"T1", "T2", "Sp"}, b \in {"T1", "T2", "Sp"} }
                 \cup { <<Call("T1", <<Pos(<<Call(a, <<>>), Call(b, <<Pos(<<Txt(<<"x">>)>>)>>)>>)>>)>> : a \in {"T2", "Sp"}, b \in {"T1", "T2"} }
 CycPages == { <<Call("A", <<>>)>>, <<Call("A", <<Pos(<<Txt(<<"a">>)>>)>>)>>,
+              <<If(<<Txt(<<"1">>)>>, <<Call("A", <<>>)>>, <<>>)>>,
               <<Txt(<<"p">>), Call("A", <<>>), Call("T1", <<Pos(<<Call("A", <<Pos(<<Txt(<<"a">>)>>)>>)>>)>>), Txt(<<"q">>)>> }
 
 LoopPages == { <<Inv("loop", <<>>), Inv("echo", <<Pos(<<Txt(<<"k">>)>>)>>)>>, <<Call("T1", <<Pos(<<Inv("loop", <<>>)>>)>>)>> }
@@ -107,12 +108,12 @@ Needs == { {}, {"T1"}, {"T2"}, {"Sp", "T1"} }
 
 Cases ==
   CASE Universe = "C16" ->
-         { [lib |-> l, need |-> {"T2"}, page |-> p, o |-> o, enw |-> TRUE] :
+         { [lib |-> l, need |-> {"T2", "A"}, page |-> p, o |-> o, enw |-> TRUE] :
              l \in AcyclicLibs \cup CyclicLibs \cup {LInvPre}, p \in CallPages \cup PfnPages \cup InvPages \cup CycPages \cup SiblingPages \cup DeepPagesQ, o \in Opts16 }
          \cup { [lib |-> LibBase, need |-> {"T2"}, page |-> p, o |-> o, enw |-> TRUE] : p \in LoopPages, o \in Opts16 }
     [] Universe = "C16Q" ->
-         { [lib |-> l, need |-> {"T2"}, page |-> p, o |-> o, enw |-> TRUE] :
-             l \in {LibBase, LArg, LInvPre}, p \in PfnPages \cup InvPages \cup CycPages, o \in Opts16 }
+         { [lib |-> l, need |-> {"T2", "A"}, page |-> p, o |-> o, enw |-> TRUE] :
+             l \in {LibBase, LArg, LSelf, LInvPre}, p \in PfnPages \cup InvPages \cup CycPages, o \in Opts16 }
          \cup { [lib |-> LibBase, need |-> {"T2"}, page |-> p, o |-> o, enw |-> TRUE] : p \in LoopPages, o \in Opts16 }
     [] Universe = "C05" ->
          { [lib |-> l, need |-> {}, page |-> p, o |-> OptAll, enw |-> TRUE] : l \in CyclicLibs \cup AcyclicLibs, p \in CycPages \cup DeepPages }
